@@ -44,20 +44,7 @@ def case(draw):
         ch["ter"] = True
         ch["shift"] = [40.0 * ci, 0.0, 0.0]
         if draw(st.integers(0, 2)) == 0:
-            # insertion codes: runs of equal numbers with codes '', A, B ...
-            base = ch["start"]
-            nums, codes = [], []
-            k = 0
-            for i in range(n):
-                if i > 0 and draw(st.booleans()):
-                    k += 1
-                    nums.append(nums[-1])
-                    codes.append("ABCDE"[k - 1])
-                else:
-                    k = 0
-                    nums.append(base + i)
-                    codes.append(" ")
-            ch["nums"], ch["icodes"] = nums, codes
+            strat.add_insertion_codes(draw, ch)
         if ids[0] == ids[1] and ci == 1:
             off = 50 if chains[0]["start"] < 9000 else -100
             delta = chains[0]["start"] + off - ch["start"]
